@@ -618,7 +618,9 @@ def run_c18(tier, seed, keep=False):
                 (3, ["-mode", "random", "-count", "1500" if q else "20000", "-maxw", "2", "-density", "0.5", "-reps", "2"], "random-3"),
                 (5, ["-mode", "random", "-count", "1200" if q else "12000", "-reps", "2"], "random-5"),
                 (7, ["-mode", "random", "-count", "600" if q else "6000", "-reps", "2", "-density", "0.3"], "random-7"),
-                (5, ["-mode", "random", "-count", "600" if q else "6000", "-reps", "1", "-density", "0.4", "-maxw", "30000"], "random-5-large-weights")]
+                (5, ["-mode", "random", "-count", "600" if q else "6000", "-reps", "1", "-density", "0.4", "-maxw", "30000"], "random-5-large-weights"),
+                # weights that are multiples of 2^28 (path sums beyond 32 bits); the trace is written in units of 2^28
+                (5, ["-mode", "random", "-count", "500" if q else "5000", "-reps", "1", "-density", "0.4", "-maxw", "7", "-unit", str(2 ** 28)], "random-5-huge-weights")]
         if not q:
             jobs.append((3, ["-mode", "all", "-weights", "0,2", "-reps", "1"], "all-digraphs-3-w02"))
             jobs.append((9, ["-mode", "random", "-count", "2000", "-reps", "2", "-density", "0.25", "-maxw", "6"], "random-9"))
@@ -640,7 +642,7 @@ def run_c18(tier, seed, keep=False):
         if os.path.exists(w.path("d_random-5.ndjson")):
             ev.sample([json.loads(x) for x in open(w.path("d_random-5.ndjson")).read().splitlines()[:7]])
         ev.doc["assumptions"] = ["the verif-tagged pop hook reports each vertex taken off the queue with its distance",
-                                 "int32 arithmetic is modelled at a reduced scale that preserves the order of all compared values"]
+                                 "machine-integer arithmetic is modelled at a reduced scale that preserves the order of all compared values; huge weights are traced in units of their common factor"]
         ev.write()
     return rc
 
@@ -655,7 +657,9 @@ def run_c20(tier, seed, keep=False):
         rc = 0
         jobs = [(3, ["-mode", "all", "-reps", "2" if q else "8"], "all-digraphs-3"),
                 (4, ["-mode", "random", "-count", "1200" if q else "15000", "-reps", "2"], "random-4"),
-                (6, ["-mode", "random", "-count", "600" if q else "8000", "-reps", "2", "-density", "0.25"], "random-6")]
+                (6, ["-mode", "random", "-count", "600" if q else "8000", "-reps", "2", "-density", "0.25"], "random-6"),
+                # weights in multiples of 2^29 (path sums beyond 32 bits; the trace is written in units)
+                (5, ["-mode", "random", "-count", "400" if q else "4000", "-reps", "1", "-density", "0.4", "-unit", str(2 ** 29)], "random-5-huge-weights")]
         if not q:
             jobs.append((4, ["-mode", "all", "-reps", "1"], "all-digraphs-4"))
             jobs.append((8, ["-mode", "random", "-count", "3000", "-reps", "2", "-density", "0.2"], "random-8"))
